@@ -38,7 +38,8 @@ impl LazyRegex {
         match &self.compiled {
             Some(regex) => regex.is_match(value),
             None => {
-                if self.original.is_empty() {
+                // an empty node prefix (".*") matches everything, an empty leaf pattern ("^$") does not
+                if self.original.is_empty() && self.regex == ".*" {
                     true
                 } else {
                     match self.create_regex() {
